@@ -304,8 +304,9 @@ def run(cx):
         st = [m for m in b.mutations() if m.kind == 'store' and m.elem]
         okp = False
         for m in st:
-            val = simplify(b.dag().rvalue(m.data['rv'], m.bb, m.idx))
-            tgt = simplify(b.dag().place(m.data['pl'], m.bb, m.idx))
+            from vpa import comp as CMP
+            val = CMP.canon(simplify(b.dag().rvalue(m.data['rv'], m.bb, m.idx)))      # index form: `for i in 0..D` and `.iter().enumerate()` alike
+            tgt = CMP.canon(simplify(b.dag().place(m.data['pl'], m.bb, m.idx)))
             e = match('(call Matrix::dot (index (self basis) $i) (call OPoint::sub (param point) (self center)))', val)
             if e and match('(index _ $i)', tgt, e):
                 okp = True
